@@ -96,18 +96,33 @@ func checkC04(c ParamCase) (f *report.Failure, nparams int, decidedBy string) {
 	if len(slots) != len(params) {
 		return report.Failf("param-list", "query %q (df=%q) has the %d values %s but ToParameterizedPostgres returned %d parameters %#v (SQL %s)", text, c.DF, len(slots), slotString(slots), len(params), params, psql), len(params), ""
 	}
-	bare := map[*gen.Val]bool{}
-	c.Tree.Walk(func(_ int, n *gen.Node) {
-		if n.K == gen.NTerm {
-			bare[n.V] = true
+	// a wildcard term is a LIKE pattern (hence translated) only as the value of a
+	// field, or as a bare operand that the default field scopes; everywhere else
+	// (range bound, comparison value, inside a field group, bare without default
+	// field) it is passed on as written, exactly as the inline renderer does
+	pattern := map[*gen.Val]bool{}
+	var mark func(n *gen.Node, scoped bool)
+	mark = func(n *gen.Node, scoped bool) {
+		if n == nil {
+			return
 		}
-	})
+		switch n.K {
+		case gen.NField:
+			pattern[n.V] = true
+		case gen.NTerm:
+			pattern[n.V] = scoped && c.DF != ""
+		case gen.NGroup:
+			mark(n.L, false)
+		default:
+			mark(n.L, scoped)
+			mark(n.R, scoped)
+		}
+	}
+	mark(c.Tree, true)
 	for i, v := range slots {
 		want := expectedParam(v)
-		if v.K == gen.VWild && bare[v] && params[i] == any(v.S) {
-			// a bare pattern that is not matched against a field is passed on as it
-			// was written (the inline renderer does the same)
-			continue
+		if v.K == gen.VWild && !pattern[v] {
+			want = v.S
 		}
 		if reflect.TypeOf(want) != reflect.TypeOf(params[i]) || want != params[i] {
 			return report.Failf("param-value", "query %q (df=%q): parameter %d is %#v (%T), want the query's value %#v (%T) in left-to-right order; all: %#v", text, c.DF, i, params[i], params[i], want, want, params), len(params), ""
@@ -142,7 +157,7 @@ func checkC04(c ParamCase) (f *report.Failure, nparams int, decidedBy string) {
 		return report.Failf("param-subst", "substituting the parameters into %s: %v", psql, err), len(params), ""
 	}
 	decidedBy = "normal-form"
-	if wi.String() != ws.String() {
+	if normForm(wi) != normForm(ws) {
 		decidedBy = "evaluation"
 		consts := map[string]*fieldConsts{}
 		collectConsts(c.Tree, consts)
@@ -153,11 +168,23 @@ func checkC04(c ParamCase) (f *report.Failure, nparams int, decidedBy string) {
 		if c.DF != "" {
 			fs = append(fs, fieldSpec{name: gen.Quoted(c.DF)})
 		}
+		evaluated := 0
 		for _, row := range probeRows(c.Tree, fs) {
 			a, ea := wi.Eval(row)
 			b, eb := ws.Eval(row)
 			if (ea != nil) != (eb != nil) || (ea == nil && a != b) {
 				return report.Failf("not-equivalent", "query %q (df=%q): inline SQL %s and parameterized SQL %s with %#v differ on the row %s: %v (%v) vs %v (%v)", text, c.DF, sql, psql, params, rowString(row), a, ea, b, eb), len(params), ""
+			}
+			if ea == nil {
+				evaluated++
+			}
+		}
+		if evaluated == 0 {
+			// nothing could be evaluated (bare constants used as predicates, type
+			// clashes): the two texts must then at least carry the same constants
+			decidedBy = "constants"
+			if a, b := constSeq(wi), constSeq(ws); a != b {
+				return report.Failf("not-equivalent", "query %q (df=%q): inline SQL %s carries the constants %s but the parameterized SQL %s with %#v carries %s", text, c.DF, sql, a, psql, params, b), len(params), ""
 			}
 		}
 	}
@@ -186,6 +213,53 @@ func checkC04(c ParamCase) (f *report.Failure, nparams int, decidedBy string) {
 	return nil, len(params), decidedBy
 }
 
+// normForm prints the expression with BETWEEN rewritten to >= AND <= and nested
+// AND / OR flattened.
+func normForm(e *sqlx.Expr) string {
+	switch e.K {
+	case sqlx.KBetween:
+		return "(" + normForm(e.Args[0]) + ">=" + normForm(e.Args[1]) + " AND " + normForm(e.Args[0]) + "<=" + normForm(e.Args[2]) + ")"
+	case sqlx.KAnd, sqlx.KOr:
+		op := " AND "
+		if e.K == sqlx.KOr {
+			op = " OR "
+		}
+		var parts []string
+		var flat func(x *sqlx.Expr)
+		flat = func(x *sqlx.Expr) {
+			if x.K == e.K {
+				for _, a := range x.Args {
+					flat(a)
+				}
+				return
+			}
+			if x.K == sqlx.KBetween && e.K == sqlx.KAnd {
+				parts = append(parts, normForm(x.Args[0])+">="+normForm(x.Args[1]), normForm(x.Args[0])+"<="+normForm(x.Args[2]))
+				return
+			}
+			parts = append(parts, normForm(x))
+		}
+		flat(e)
+		return "(" + strings.Join(parts, op) + ")"
+	case sqlx.KCmp:
+		return normForm(e.Args[0]) + e.Op + normForm(e.Args[1])
+	case sqlx.KNot:
+		return "NOT" + normForm(e.Args[0])
+	}
+	return e.String()
+}
+
+// constSeq lists the constants of an expression in text order.
+func constSeq(e *sqlx.Expr) string {
+	var out []string
+	e.Walk(func(x *sqlx.Expr) {
+		if x.K == sqlx.KConst {
+			out = append(out, x.Val.String())
+		}
+	})
+	return "[" + strings.Join(out, " ") + "]"
+}
+
 func slotString(vs []*gen.Val) string {
 	var p []string
 	for _, v := range vs {
@@ -205,12 +279,7 @@ func init() {
 	}
 }
 
-func copyTree(n *gen.Node) *gen.Node {
-	raw, _ := json.Marshal(n)
-	var cp gen.Node
-	_ = json.Unmarshal(raw, &cp)
-	return &cp
-}
+func copyTree(n *gen.Node) *gen.Node { return gen.Clone(n) }
 
 // reassign replaces every value by another one of the same kind (patterns keep
 // their wildcards at the same positions).
@@ -276,6 +345,14 @@ func TestC04(t *testing.T) {
 		}
 		f, np, by := checkC04(c)
 		if f != nil {
+			if f.Sub != "sql-depends-on-values" {
+				c.Tree2 = nil
+				c.Tree = gen.Minimize(c.Tree, func(n *gen.Node) bool {
+					ff, _, _ := checkC04(ParamCase{Tree: n, Opts: c.Opts, DF: c.DF})
+					return ff != nil && ff.Sub == f.Sub
+				})
+				f, _, _ = checkC04(c)
+			}
 			c.Text = gen.Text(c.Tree, c.Opts)
 			if c.Tree2 != nil {
 				c.Text2 = gen.Text(c.Tree2, c.Opts)
@@ -314,6 +391,8 @@ func TestC04(t *testing.T) {
 		{K: gen.NRange, Field: f, Lo: gen.Word("aa"), Hi: nil, IncLo: true, IncHi: true}, {K: gen.NRange, Field: f, Lo: nil, Hi: nil, IncLo: true, IncHi: true},
 		{K: gen.NRange, Field: f, Lo: gen.Word("aa"), Hi: gen.Quoted("z, z")},
 		{K: gen.NList, Field: f, Vals: []*gen.Val{gen.Word("x"), gen.Int(2), gen.Quoted("*"), gen.Float("2.5")}},
+		{K: gen.NRange, Field: f, Lo: gen.Wild("a*"), Hi: gen.Wild("b?"), IncLo: true, IncHi: true}, {K: gen.NCmp, Field: f, Cmp: ">=", V: gen.Wild("x*")},
+		{K: gen.NField, Field: f, V: gen.IntSrc("010")}, {K: gen.NRange, Field: f, Lo: gen.IntSrc("007"), Hi: gen.IntSrc("0100"), IncLo: true, IncHi: true},
 	}
 	depth := 1
 	if cfg.Thorough() {
@@ -334,6 +413,24 @@ func TestC04(t *testing.T) {
 			tree.Walk(func(_ int, n *gen.Node) {
 				if n.V != nil && n.V.IsString() && n.K != gen.NCmp {
 					n.V = gen.Quoted("*")
+				}
+			})
+		}
+		if rapid.IntRange(0, 3).Draw(rt, "patbound") == 0 {
+			tree.Walk(func(_ int, n *gen.Node) {
+				switch {
+				case n.K == gen.NCmp && n.V.IsString():
+					n.V = gen.GenWildVal().Draw(rt, "pcmp")
+				case n.K == gen.NRange && n.Lo != nil && n.Lo.IsString():
+					n.Lo = gen.GenWildVal().Draw(rt, "plo")
+				case n.K == gen.NRange && n.Hi != nil && n.Hi.IsString():
+					n.Hi = gen.GenWildVal().Draw(rt, "phi")
+				}
+				// a bound that is exactly * is the open end, not a pattern value
+				for _, b := range []**gen.Val{&n.Lo, &n.Hi} {
+					if n.K == gen.NRange && *b != nil && (*b).K == gen.VWild && (*b).S == "*" {
+						*b = gen.Wild("a*")
+					}
 				}
 			})
 		}
